@@ -152,11 +152,24 @@ fn noise_case(rep: &Report, key: &[u8; 32], ctr: u64, ad: &[u8], pt: &[u8]) {
     match guarded(|| kc::verif_chapoly_decrypt_noise(key, ctr, ad, &want)) {
         Ok(Ok(got)) => {
             if got != pt {
-                rep.violation("noise-dec-wrong", case, "wrong plaintext".into());
+                rep.violation("noise-dec-wrong", case.clone(), "wrong plaintext".into());
             }
         }
-        Ok(Err(_)) => rep.violation("noise-nonce-layout-dec", case, format!("Noise AEAD decrypt: rejects a record sealed under nonce 00000000||LE64({})", ctr)),
-        Err(p) => rep.violation("noise-dec-panic", case, format!("panic: {}", p)),
+        Ok(Err(_)) => rep.violation("noise-nonce-layout-dec", case.clone(), format!("Noise AEAD decrypt: rejects a record sealed under nonce 00000000||LE64({})", ctr)),
+        Err(p) => rep.violation("noise-dec-panic", case.clone(), format!("panic: {}", p)),
+    }
+    // the record opens under its own counter ONLY: byte-swapped, rotated, shifted and neighbouring counters are refused
+    let mut others: Vec<u64> = vec![ctr.swap_bytes(), ctr.rotate_left(8), ctr.rotate_right(8), ctr.rotate_left(32), ctr.wrapping_add(1), ctr.wrapping_sub(1), ctr ^ 0x100, ctr ^ (1 << 63), (ctr as u32 as u64).swap_bytes() >> 32, !ctr];
+    others.retain(|&o| o != ctr && o != u64::MAX);
+    others.sort();
+    others.dedup();
+    for o in others {
+        rep.eval(1);
+        match guarded(|| kc::verif_chapoly_decrypt_noise(key, o, ad, &want)) {
+            Ok(Ok(_)) => rep.violation("noise-dec-accepts-another-counter", case.clone(), format!("Noise AEAD decrypt: a record sealed under counter {:#x} opens under counter {:#x}", ctr, o)),
+            Ok(Err(_)) => {}
+            Err(p) => rep.violation("noise-dec-panic", case.clone(), format!("panic: {}", p)),
+        }
     }
 }
 
@@ -336,6 +349,22 @@ pub fn run(rep: &Report) {
             }
             rep.nontrivial(format!("derive-seq-{}", i).as_bytes());
         }
+    }
+    // RFC 8439 over many (key, nonce) pairs with 1-, 2- and 3-byte plaintexts: whatever the first keystream bytes are
+    // (zero included: then ciphertext == plaintext), open inverts seal
+    {
+        let keys: Vec<[u8; 32]> = (0..4).map(|i| derive32(seed, &format!("c19-tiny-key-{}", i))).collect();
+        let nn = rep.tier.pick(2048u32, 16384);
+        let jobs: Vec<(usize, u32)> = (0..keys.len()).flat_map(|k| (0..nn).map(move |n| (k, n))).collect();
+        jobs.par_iter().for_each(|&(k, n)| {
+            let mut nonce = [0u8; 12];
+            nonce[4..8].copy_from_slice(&n.to_le_bytes());
+            for pt in [&b"\x00"[..], &b"a"[..], &b"\x00\x00"[..], &b"ab"[..], &b"abc"[..]] {
+                aead_case(rep, &keys[k], &nonce, b"", pt);
+            }
+        });
+        rep.add_distinct(jobs.len() as u64 * 5);
+        rep.extra("tiny_plaintext_nonce_sweep", json!({"keys":keys.len(),"nonces":nn,"plaintexts":5}));
     }
     // (e) HKDF
     let shapes: Vec<(&str, Vec<u8>, Vec<u8>, Vec<u8>)> = vec![
